@@ -8,11 +8,7 @@
       `bear`, `translateRa`, `translateDec`) that the round trips need.  They are hypotheses here and are
       discharged in `Aegean/Proofs/C16FromC17.lean` from C17's lemmas.
 -/
-import Aegean.Proofs.Real
-import Aegean.Model.C16
-import Mathlib.Tactic.Linarith
-import Mathlib.Tactic.FieldSimp
-import Mathlib.Tactic.Positivity
+import Aegean.Proofs.C16Leaves
 
 set_option linter.unusedSimpArgs false
 
@@ -89,9 +85,6 @@ theorem polar_im (dx dy : ℝ) : Real.sqrt (dx ^ 2 + dy ^ 2) * Real.sin (Complex
 /-- `hypot`/`sqrt` of the reversed differences is the same length -/
 theorem len_rev (x y xo yo : ℝ) : (x - xo) ^ 2 + (y - yo) ^ 2 = (xo - x) ^ 2 + (yo - y) ^ 2 := by ring
 
-theorem hypot_sq (a b : ℝ) : (R.hypot a b : ℝ) = Real.sqrt (a ^ 2 + b ^ 2) := by
-  rw [R.real_hypot]; congr 1; ring
-
 /-- robust forms: `E` is whatever expression the source uses for the squared length (any order of the
     two squares, either sign of the differences), `dx, dy` whatever it hands to `arctan2` -/
 theorem polar_x_gen (x xo E dx dy : ℝ) (hE : E = dx ^ 2 + dy ^ 2) (hdx : dx = xo - x) :
@@ -102,23 +95,29 @@ theorem polar_y_gen (y yo E dx dy : ℝ) (hE : E = dx ^ 2 + dy ^ 2) (hdy : dy = 
     y + Real.sqrt E * Real.sin (Complex.arg ⟨dx, dy⟩) = yo := by
   rw [hE, polar_im, hdy]; ring
 
+theorem deg_rad (a : ℝ) : a * (180 / π) * (π / 180) = a := by field_simp
+
 /-- sky2pix_vec's `(a, theta)` put back through pix2sky_vec's offset point give the pixel `(x_off, y_off)` -/
 theorem vec_polar_x (x y xo yo : ℝ) : offX x (s2pVecLen x y xo yo) (s2pVecAng x y xo yo) = xo := by
-  simp only [offX, s2pVecLen, s2pVecAng, hypot_sq, R.real_npow, R.real_sqrt, R.real_cos, R.real_atan2, radians_degrees]
-  exact polar_x_gen _ _ _ _ _ (by ring) (by ring)
+  rw [s2pVecLen_eq, s2pVecAng_eq]
+  simp only [offX, R.real_cos, R.real_radians, deg_rad]
+  exact polar_x_gen _ _ _ _ _ rfl rfl
 
 theorem vec_polar_y (x y xo yo : ℝ) : offY y (s2pVecLen x y xo yo) (s2pVecAng x y xo yo) = yo := by
-  simp only [offY, s2pVecLen, s2pVecAng, hypot_sq, R.real_npow, R.real_sqrt, R.real_sin, R.real_atan2, radians_degrees]
-  exact polar_y_gen _ _ _ _ _ (by ring) (by ring)
+  rw [s2pVecLen_eq, s2pVecAng_eq]
+  simp only [offY, R.real_sin, R.real_radians, deg_rad]
+  exact polar_y_gen _ _ _ _ _ rfl rfl
 
 /-- the same for the major axis of sky2pix_ellipse: `(sx, degrees theta)` -/
 theorem ell_polar_x (x y xo yo : ℝ) : offX x (s2pEllSx x y xo yo) (s2pEllAng x y xo yo) = xo := by
-  simp only [offX, s2pEllSx, s2pEllAng, hypot_sq, R.real_npow, R.real_sqrt, R.real_cos, R.real_atan2, radians_degrees]
-  exact polar_x_gen _ _ _ _ _ (by ring) (by ring)
+  rw [s2pEllSx_eq, s2pEllAng_eq]
+  simp only [offX, R.real_cos, R.real_radians, deg_rad]
+  exact polar_x_gen _ _ _ _ _ rfl rfl
 
 theorem ell_polar_y (x y xo yo : ℝ) : offY y (s2pEllSx x y xo yo) (s2pEllAng x y xo yo) = yo := by
-  simp only [offY, s2pEllSx, s2pEllAng, hypot_sq, R.real_npow, R.real_sqrt, R.real_sin, R.real_atan2, radians_degrees]
-  exact polar_y_gen _ _ _ _ _ (by ring) (by ring)
+  rw [s2pEllSx_eq, s2pEllAng_eq]
+  simp only [offY, R.real_sin, R.real_radians, deg_rad]
+  exact polar_y_gen _ _ _ _ _ rfl rfl
 
 /-! ### Vectors -/
 
@@ -151,32 +150,32 @@ theorem vec_roundtrip (ra dec r pa : ℝ)
   intro v s
   obtain ⟨k, hk⟩ := sky_roundtrip W L ra dec hs
   obtain ⟨k', hk'⟩ := sky_roundtrip W L _ _ hs'
-  have hx : v.x = (sky2pix W ra dec).1 := by simp [v, sky2pixVec, s2pVecX]
-  have hy : v.y = (sky2pix W ra dec).2 := by simp [v, sky2pixVec, s2pVecY]
+  have hx : v.x = (sky2pix W ra dec).1 := by simp [v, sky2pixVec, s2pVecX_eq]
+  have hy : v.y = (sky2pix W ra dec).2 := by simp [v, sky2pixVec, s2pVecY_eq]
   have hox : offX v.x v.r v.theta = (sky2pix W (translateRa ra dec r pa) (translateDec ra dec r pa)).1 := by
-    simp only [v, sky2pixVec, s2pVecX, s2pVecY]; exact vec_polar_x _ _ _ _
+    simp only [v, sky2pixVec, s2pVecX_eq, s2pVecY_eq]; exact vec_polar_x _ _ _ _
   have hoy : offY v.y v.r v.theta = (sky2pix W (translateRa ra dec r pa) (translateDec ra dec r pa)).2 := by
-    simp only [v, sky2pixVec, s2pVecX, s2pVecY]; exact vec_polar_y _ _ _ _
+    simp only [v, sky2pixVec, s2pVecX_eq, s2pVecY_eq]; exact vec_polar_y _ _ _ _
   have habs := abs_lt.mp hd
   have hlen : s.r = r := by
-    simp only [s, pix2skyVec, p2sVecLen]
+    simp only [s, pix2skyVec, p2sVecLen_eq]
     rw [hox, hoy, hx, hy, hk, hk']
     simp only []
     rw [S.gcd_periodic]
     exact S.gcd_translate ra dec r pa (by linarith [habs.1]) (by linarith [habs.2]) hr0.le hr1.le
   have hpa : ∃ m : ℤ, s.pa = pa + 360 * m := by
-    simp only [s, pix2skyVec, p2sVecPa]
+    simp only [s, pix2skyVec, p2sVecPa_eq]
     rw [hox, hoy, hx, hy, hk, hk']
     simp only []
     rw [S.bear_periodic]
     exact S.bear_translate ra dec r pa hr0 hr1 hd
   refine ⟨⟨k, ?_⟩, ?_, hlen, hpa, ?_⟩
-  · simp only [s, pix2skyVec, p2sVecRa]; rw [hx, hy, hk]
-  · simp only [s, pix2skyVec, p2sVecDec]; rw [hx, hy, hk]
+  · simp only [s, pix2skyVec, p2sVecRa_eq]; rw [hx, hy, hk]
+  · simp only [s, pix2skyVec, p2sVecDec_eq]; rw [hx, hy, hk]
   · intro h1 h2
     obtain ⟨m, hm⟩ := hpa
     have hrange : -180 < s.pa ∧ s.pa ≤ 180 := by
-      simp only [s, pix2skyVec, p2sVecPa]; exact S.bear_range _ _ _ _
+      simp only [s, pix2skyVec, p2sVecPa_eq]; exact S.bear_range _ _ _ _
     exact pa_unique _ _ m hrange ⟨h1, h2⟩ hm
 
 /-- **ellipse_major_pa_roundtrip**: centre (mod 360 in RA), semi-major axis and position angle of an
@@ -191,32 +190,32 @@ theorem ellipse_major_pa_roundtrip (ra dec a b pa : ℝ)
   intro e s
   obtain ⟨k, hk⟩ := sky_roundtrip W L ra dec hs
   obtain ⟨k', hk'⟩ := sky_roundtrip W L _ _ hs'
-  have hx : e.x = (sky2pix W ra dec).1 := by simp [e, sky2pixEllipse, s2pEllX]
-  have hy : e.y = (sky2pix W ra dec).2 := by simp [e, sky2pixEllipse, s2pEllY]
+  have hx : e.x = (sky2pix W ra dec).1 := by simp [e, sky2pixEllipse, s2pEllX_eq]
+  have hy : e.y = (sky2pix W ra dec).2 := by simp [e, sky2pixEllipse, s2pEllY_eq]
   have hox : offX e.x e.sx e.theta = (sky2pix W (translateRa ra dec a pa) (translateDec ra dec a pa)).1 := by
-    simp only [e, sky2pixEllipse, s2pEllX, s2pEllY]; exact ell_polar_x _ _ _ _
+    simp only [e, sky2pixEllipse, s2pEllX_eq, s2pEllY_eq]; exact ell_polar_x _ _ _ _
   have hoy : offY e.y e.sx e.theta = (sky2pix W (translateRa ra dec a pa) (translateDec ra dec a pa)).2 := by
-    simp only [e, sky2pixEllipse, s2pEllX, s2pEllY]; exact ell_polar_y _ _ _ _
+    simp only [e, sky2pixEllipse, s2pEllX_eq, s2pEllY_eq]; exact ell_polar_y _ _ _ _
   have habs := abs_lt.mp hd
   have hlen : s.a = a := by
-    simp only [s, pix2skyEllipse, p2sEllMajor]
+    simp only [s, pix2skyEllipse, p2sEllMajor_eq]
     rw [hox, hoy, hx, hy, hk, hk']
     simp only []
     rw [S.gcd_periodic]
     exact S.gcd_translate ra dec a pa (by linarith [habs.1]) (by linarith [habs.2]) ha0.le ha1.le
   have hpa : ∃ m : ℤ, s.pa = pa + 360 * m := by
-    simp only [s, pix2skyEllipse, p2sEllPa]
+    simp only [s, pix2skyEllipse, p2sEllPa_eq]
     rw [hox, hoy, hx, hy, hk, hk']
     simp only []
     rw [S.bear_periodic]
     exact S.bear_translate ra dec a pa ha0 ha1 hd
   refine ⟨⟨k, ?_⟩, ?_, hlen, hpa, ?_⟩
-  · simp only [s, pix2skyEllipse, p2sEllRa]; rw [hx, hy, hk]
-  · simp only [s, pix2skyEllipse, p2sEllDec]; rw [hx, hy, hk]
+  · simp only [s, pix2skyEllipse, p2sEllRa_eq]; rw [hx, hy, hk]
+  · simp only [s, pix2skyEllipse, p2sEllDec_eq]; rw [hx, hy, hk]
   · intro h1 h2
     obtain ⟨m, hm⟩ := hpa
     have hrange : -180 < s.pa ∧ s.pa ≤ 180 := by
-      simp only [s, pix2skyEllipse, p2sEllPa]; exact S.bear_range _ _ _ _
+      simp only [s, pix2skyEllipse, p2sEllPa_eq]; exact S.bear_range _ _ _ _
     exact pa_unique _ _ m hrange ⟨h1, h2⟩ hm
 
 end roundtrips
